@@ -113,11 +113,12 @@ theorem getFileParts_str (d n e : Str) (hn : SLASH ∉ n) (hes : SLASH ∉ e) (h
 /-! ## read-only mode -/
 
 theorem step_readonly (crc : Bytes → Nat) (w : World) (v : Vpk) (hv : w.vpk = some v) (hm : v.mode = .r)
-    (op : Op) (hop : ∀ m l, op ≠ .openVpk m l) (hh : ∀ n, op ≠ .has n) :
+    (op : Op) (hop : ∀ m l, op ≠ .openVpk m l) (hh : ∀ n, op ≠ .has n) (hx : ∀ b, op ≠ .exit b) :
     (step crc w op).1 = w ∧ ∃ e, (step crc w op).2 = .err e := by
   cases op with
   | openVpk m l => exact absurd rfl (hop m l)
   | has n => exact absurd rfl (hh n)
+  | exit b => exact absurd rfl (hx b)
   | newFile n => simp [step, hv, hm, Mode.writable]
   | addFile n d i => simp [step, hv, hm, Mode.writable]
   | del n => simp [step, hv, hm, Mode.writable]
@@ -125,6 +126,21 @@ theorem step_readonly (crc : Bytes → Nat) (w : World) (v : Vpk) (hv : w.vpk = 
   | write n d i =>
     simp only [step, hv, hm, Mode.writable]
     cases v.tree.lookup (getFileParts n) <;> simp
+
+/-- leaving a `with` block of a read-only archive does nothing (and is not an error) -/
+theorem step_exit_readonly (crc : Bytes → Nat) (w : World) (v : Vpk) (hv : w.vpk = some v) (hm : v.mode = .r) (b : Bool) :
+    step crc w (.exit b) = (w, .ok) := by
+  cases b <;> simp [step, hv, hm, Mode.writable]
+
+/-- leaving a `with` block through an exception never saves -/
+theorem step_exit_exception (crc : Bytes → Nat) (w : World) (v : Vpk) (hv : w.vpk = some v) :
+    step crc w (.exit true) = (w, .ok) := by
+  simp [step, hv]
+
+/-- leaving a writable `with` block normally is exactly `write_dirfile()` -/
+theorem step_exit_normal (crc : Bytes → Nat) (w : World) (v : Vpk) (hv : w.vpk = some v) (hm : v.mode.writable = true) :
+    step crc w (.exit false) = step crc w .flush := by
+  simp [step, hv, hm]
 
 /-! ## read after write -/
 
